@@ -31,6 +31,23 @@ def arg_for(param):
 HEAD = "#![allow(unused)]\nuse caches::{Cache, ResizableCache};\n"
 
 
+HELPERS = """use std::hash::BuildHasher;
+use std::collections::hash_map::DefaultHasher;
+struct CellState(std::cell::Cell<u64>);                       // Send, not Sync
+impl BuildHasher for CellState { type Hasher = DefaultHasher; fn build_hasher(&self) -> DefaultHasher { self.0.set(self.0.get() + 1); DefaultHasher::new() } }
+struct RcState(std::rc::Rc<u64>);                             // neither
+impl BuildHasher for RcState { type Hasher = DefaultHasher; fn build_hasher(&self) -> DefaultHasher { DefaultHasher::new() } }
+struct GuardState(std::sync::MutexGuard<'static, u64>);       // Sync, not Send
+impl BuildHasher for GuardState { type Hasher = DefaultHasher; fn build_hasher(&self) -> DefaultHasher { DefaultHasher::new() } }
+struct PlainState;                                            // both
+impl BuildHasher for PlainState { type Hasher = DefaultHasher; fn build_hasher(&self) -> DefaultHasher { DefaultHasher::new() } }
+struct RcCb(std::rc::Rc<u64>);                                // neither
+impl caches::OnEvictCallback for RcCb { fn on_evict<K, V>(&self, _: &K, _: &V) {} }
+struct PlainCb;                                               // both
+impl caches::OnEvictCallback for PlainCb { fn on_evict<K, V>(&self, _: &K, _: &V) {} }
+"""
+
+
 def method_probes(s):
     ctor = CTORS[s["ty"]]
     args = ", ".join(arg_for(p) for p in s["params"])
@@ -82,6 +99,21 @@ def marker_probes(m, item):
         if which == "Send":
             out[f"neg_marker__{ty}__{which}__K_sync_not_send"] = HEAD + fn + f"fn main() {{ need::<{inst(guard, 'u64')}>(); }}\n"
             out[f"neg_marker__{ty}__{which}__V_sync_not_send"] = HEAD + fn + f"fn main() {{ need::<{inst('u64', guard)}>(); }}\n"
+        # the other type parameters the cache owns: the eviction callback E and the hash builder S
+        tps = m.get("tparams", [])
+        if "E" in tps and "S" in tps:
+            def inst4(e, sh):
+                return f"{path}<u64, u64, {e}, {sh}>"
+            okcb, oksh = "caches::DefaultEvictCallback", "std::collections::hash_map::RandomState"
+            if which == "Sync":
+                # look-ups through &self call build_hasher(&self): a hash builder that is Send but not Sync must not be shared
+                out[f"neg_marker__{ty}__Sync__S_send_not_sync"] = HEAD + HELPERS + fn + f"fn main() {{ need::<{inst4(okcb, 'CellState')}>(); }}\n"
+                out[f"neg_marker__{ty}__Sync__E_neither"] = HEAD + HELPERS + fn + f"fn main() {{ need::<{inst4('RcCb', oksh)}>(); }}\n"
+            else:
+                out[f"neg_marker__{ty}__Send__S_not_send"] = HEAD + HELPERS + fn + f"fn main() {{ need::<{inst4(okcb, 'RcState')}>(); }}\n"
+                out[f"neg_marker__{ty}__Send__S_sync_not_send"] = HEAD + HELPERS + fn + f"fn main() {{ need::<{inst4(okcb, 'GuardState')}>(); }}\n"
+                out[f"neg_marker__{ty}__Send__E_not_send"] = HEAD + HELPERS + fn + f"fn main() {{ need::<{inst4('RcCb', oksh)}>(); }}\n"
+            out[f"pos_marker__{ty}__{which}__custom_E_S"] = HEAD + HELPERS + fn + f"fn main() {{ need::<{inst4('PlainCb', 'PlainState')}>(); }}\n"
     return out
 
 
